@@ -3,7 +3,7 @@ PROPERTY = 'C16'
 LEVEL = 'exploration'
 DEDUCTIVE = ['contracts.c16_frb']
 BUDGET_S = {'quick': 120.0, 'thorough': 300.0}
-MIN_OBLIGATIONS = {'quick': 400, 'thorough': 400}
+MIN_OBLIGATIONS = {'quick': 800, 'thorough': 800}
 BOUNDED_FLOOR = {'quick': 1500, 'thorough': 8000}
 CONFIG_NOTE = {'quick': "AnyScalar.__eq__, bounds_for_cache for 1-3 axes (scalar-ness and contribution symbolic), translate_pixel per case (pixel attribute, stored/derived, world, unknown, links with 0-3 inputs, nested link) "
                         "with the real function re-entered for the recursion; compute_fixed_resolution_buffer walked from its first statement for 24 cache situations (no cache id / array-cache hit / array cache for another "
@@ -52,3 +52,7 @@ MANIFEST_ENTRY['technique'] = MANIFEST_ENTRY['technique'].replace("of the cache-
 TRUSTED_BASE.append("slice_to_bound contract: slice.indices model (pyvc spec), mathematical integers; the nested function is located in the text of get_sliced_data on every run")
 ASSUMPTIONS.append("slice_to_bound is under contract for views with a positive step that select at least one pixel; an empty view (negative count) and negative steps are outside the contract and not claimed; "
                    "the rest of get_sliced_data (aggregation, transpose) is covered by the bounded image-layer sweep only")
+
+MANIFEST_ENTRY['text'] += (" ImageViewerState.numpy_slice_aggregation_transpose is proved for ranks 2-4, every pair of displayed axes and every mix of scalar and aggregated remaining axes: whole axis for the displayed "
+                           "axes, the stored slice for aggregated axes, the index for scalar axes, one aggregation entry per surviving axis in axis order, transposed iff the y axis follows the x axis.")
+TRUSTED_BASE.append("numpy_slice_aggregation_transpose contract: the viewer state is a record of reference_data.ndim, slices, x_att.axis, y_att.axis (echo callback properties read as plain attributes); AggregateSlice is a class tag")
